@@ -5,6 +5,7 @@ CONSTANTS
  Feed <- MCFeed
  Careful = TRUE
  RejectAtRefresh = "recorded"
+ ListingOrder <- MCFree
 INVARIANT TypeOK TodoHasCandidate OutputWasFetched PublishedInStore RejectsApart OnlyRejectsFlagged
 INVARIANT OnlyActionablePublished DirsExist OnlyOffered Idempotent
 INVARIANT ExclusiveCache ExclusiveOutput NoRework PublishedNotRequeued NeverWedged
